@@ -158,6 +158,9 @@ TRUSTED_BASE = [
 ]
 
 
+JOB_TIMEOUT = int(os.environ.get("VERIF_JOB_TIMEOUT", "90"))      # seconds one rebuild job may take (normal: below 10 s)
+
+
 class Runner:
     """client of one runner process"""
 
@@ -175,17 +178,29 @@ class Runner:
         with self.lock:
             if self.p is None or self.p.poll() is not None:
                 self.start()
+            timed_out = False
             try:
                 self.p.stdin.write(json.dumps(job) + "\n")
                 self.p.stdin.flush()
-                line = self.p.stdout.readline()
+                # the implementation under test may hang on an input (a seeded change did: a rebuild that never ended on a
+                # candidate at scale): wait for the answer with a limit, then kill the runner and report the job as not answered
+                import select
+                ready, _, _ = select.select([self.p.stdout], [], [], JOB_TIMEOUT)
+                if ready:
+                    line = self.p.stdout.readline()
+                else:
+                    timed_out, line = True, ""
+                    self.p.kill()
+                    self.p.wait()
             except (BrokenPipeError, OSError):
                 line = ""
             if not line:
                 rc = self.p.poll()
                 self.p = None
-                return {"id": job.get("id"), "runner_died": True, "rc": rc, "counter": None,
-                        "error": "runner process died", "records": [], "events": []}
+                return {"id": job.get("id"), "runner_died": True, "timed_out": timed_out, "rc": "no answer within %d s" % JOB_TIMEOUT
+                        if timed_out else rc, "counter": None,
+                        "error": "the rebuild did not return within %d s" % JOB_TIMEOUT if timed_out else "runner process died",
+                        "records": [], "events": []}
             return json.loads(line)
 
     def close(self):
